@@ -29,6 +29,10 @@ pub struct Graph {
     pub root_named: bool,
     pub nproj: usize,
     pub targets: Vec<GT>,
+    /// Target names are numbered per project (`t0`, `t1`, ... in every project), so that
+    /// different projects hold targets of the same name.
+    #[serde(default)]
+    pub homonyms: bool,
 }
 
 impl Graph {
@@ -49,7 +53,13 @@ impl Graph {
     }
 
     pub fn tname(&self, i: usize) -> String {
-        format!("t{}", i)
+        if self.homonyms {
+            let p = self.targets[i].proj;
+            let rank = self.targets[..i].iter().filter(|t| t.proj == p).count();
+            format!("t{}", rank)
+        } else {
+            format!("t{}", i)
+        }
     }
 
     pub fn id(&self, i: usize) -> TargetId {
@@ -157,6 +167,9 @@ impl Graph {
         }
         if dependents.values().any(|&k| k >= 2) {
             c.push("shared-dep");
+        }
+        if self.homonyms {
+            c.push("homonyms-across-projects");
         }
         if clo.iter().any(|&i| {
             self.targets[i].kind == Kind::Aggregate
@@ -331,6 +344,7 @@ pub fn build_graph(raw: &RawGraph) -> Graph {
     let mut g = Graph {
         root_named: raw.root_named,
         nproj,
+        homonyms: nproj > 1 && raw.nodes.first().is_some_and(|n| n.0 % 2 == 1),
         targets: Vec::new(),
     };
     for (i, (k, p, edges)) in raw.nodes.iter().enumerate() {
